@@ -1,5 +1,5 @@
-From BT Require Import Base.Util Base.Float Model.RTree Model.BBIFile Model.BigWigWrite Model.BBIRead
-  Proofs.Chunks Proofs.BigWigQuery.
+From BT Require Import Base.Util Base.LE Base.Float Model.RTree Model.BBIFile Model.BigWigWrite Model.BBIRead
+  Proofs.Chunks Proofs.BigWigQuery Proofs.RTreeCodec Proofs.BigWigFileChroms Proofs.BigWigFileRoundTrip Proofs.BigWigFileThms.
 From BT Require Properties.C01.
 Local Open Scope N_scope.
 Check (C01.C01_accept_iff : forall len vals, check_chrom len vals = Ok tt <-> wf_vals len vals).
@@ -9,3 +9,61 @@ Check (C01.C01_full_span_read : forall len vals, wf_vals len vals ->
   clip_filter 0 len vals = filter (fun v => negb (boundary_zero len v)) vals).
 Check (C01.C01_roundtrip_exact : forall len vals, wf_vals len vals ->
   Forall (fun v => boundary_zero len v = false) vals -> clip_filter 0 len vals = vals).
+
+(* the hypotheses, spelled out so that they cannot be strengthened quietly *)
+Check (eq_refl : opts_ok = fun o => 2 <= o_bs o <= 65535 /\ 1 <= o_ips o <= 65535).
+Check (eq_refl : input_ok = fun sizes inp =>
+  NoDup (map fst (runs inp))
+  /\ Forall (fun c : name => Forall (fun b => b <> 0) c /\ Nlen c < 4294967296) (map fst (runs inp))
+  /\ Nlen (runs inp) < 65536
+  /\ Forall (fun s : name * N => snd s < 4294967296) sizes
+  /\ Forall (fun it : item => v_bits (snd it) < 4294967296) inp).
+Check (eq_refl : U64 = 18446744073709551616).
+
+Check (C01.C01_read_info : forall fp o sizes inp bs,
+  opts_ok o -> input_ok sizes inp -> Nlen bs < U64 ->
+  bw_write fp o sizes inp = Ok bs \/ bw_write_multipass fp o sizes inp = Ok bs ->
+  exists i, read_info bs = Ok i
+    /\ h_big (i_hdr i) = false /\ h_bigwig (i_hdr i) = true /\ h_version (i_hdr i) = 4
+    /\ h_ubuf (i_hdr i) = 0 /\ h_full_data_off (i_hdr i) = PRE_DATA - 8 /\ h_summary_off (i_hdr i) = PRE_DATA - 48
+    /\ h_zoom_levels (i_hdr i) = Nlen (i_zooms i) /\ Nlen (i_zooms i) <= 10).
+Check (C01.C01_chrom_table : forall fp o sizes inp bs i,
+  opts_ok o -> input_ok sizes inp -> Nlen bs < U64 ->
+  bw_write fp o sizes inp = Ok bs \/ bw_write_multipass fp o sizes inp = Ok bs ->
+  read_info bs = Ok i ->
+  i_chroms i = map (fun ci => {| ci_name := fst ci; ci_id := snd ci;
+                                 ci_len := match lookup (fst ci) sizes with Some l => l | None => 0 end |})
+                   (number 0 (map fst (runs inp)))).
+Check (C01.C01_accepted_runs : forall fp o sizes inp bs,
+  opts_ok o -> input_ok sizes inp -> Nlen bs < U64 ->
+  bw_write fp o sizes inp = Ok bs \/ bw_write_multipass fp o sizes inp = Ok bs ->
+  forall c vs, In (c, vs) (runs inp) -> exists len, lookup c sizes = Some len /\ wf_vals len vs /\ vs <> []).
+Check (C01.C01_query : forall fp o sizes inp bs i infl c vs s e,
+  opts_ok o -> input_ok sizes inp -> Nlen bs < U64 ->
+  bw_write fp o sizes inp = Ok bs \/ bw_write_multipass fp o sizes inp = Ok bs ->
+  read_info bs = Ok i -> In (c, vs) (runs inp) ->
+  bw_interval infl bs i c s e = Ok (clip_filter s e vs)).
+Check (C01.C01_roundtrip : forall fp o sizes inp bs i infl c vs len,
+  opts_ok o -> input_ok sizes inp -> Nlen bs < U64 ->
+  bw_write fp o sizes inp = Ok bs ->
+  read_info bs = Ok i -> In (c, vs) (runs inp) -> lookup c sizes = Some len ->
+  bw_interval infl bs i c 0 len = Ok (filter (fun v => negb (boundary_zero len v)) vs)).
+Check (C01.C01_roundtrip_multipass : forall fp o sizes inp bs i infl c vs len,
+  opts_ok o -> input_ok sizes inp -> Nlen bs < U64 ->
+  bw_write_multipass fp o sizes inp = Ok bs ->
+  read_info bs = Ok i -> In (c, vs) (runs inp) -> lookup c sizes = Some len ->
+  bw_interval infl bs i c 0 len = Ok (filter (fun v => negb (boundary_zero len v)) vs)).
+Check (C01.C01_roundtrip_file_exact : forall fp o sizes inp bs i infl c vs len,
+  opts_ok o -> input_ok sizes inp -> Nlen bs < U64 ->
+  bw_write fp o sizes inp = Ok bs \/ bw_write_multipass fp o sizes inp = Ok bs ->
+  read_info bs = Ok i -> In (c, vs) (runs inp) -> lookup c sizes = Some len ->
+  Forall (fun v => boundary_zero len v = false) vs -> bw_interval infl bs i c 0 len = Ok vs).
+Check (C01.C01_same_regions : forall fp o sizes inp bs1 bs2,
+  bw_write fp o sizes inp = Ok bs1 -> bw_write_multipass fp o sizes inp = Ok bs2 ->
+  exists data ct ix pre1 pre2 z1 z2,
+    bs1 = pre1 ++ data ++ ct ++ ix ++ z1 /\ bs2 = pre2 ++ data ++ ct ++ ix ++ z2
+    /\ length pre1 = 352%nat /\ length pre2 = 352%nat).
+Check (C01.C01_zero_length_boundary_refuted :
+  exists sizes inp bs i c vs len,
+    bw_write ieee C01.k1_opts sizes inp = Ok bs /\ read_info bs = Ok i /\ In (c, vs) (runs inp)
+    /\ lookup c sizes = Some len /\ bw_interval (fun x => x) bs i c 0 len = Ok [] /\ vs <> []).
